@@ -275,7 +275,16 @@ func runC07(rc *RunCtx, i int) {
 			scripts[c] = append(scripts[c], core.Pick(r, []string{"batch", "batch", "batch", "empty", "flush", "flush", "pause"}))
 		}
 	}
+	if maxBuf < time.Second && i%2 == 0 {
+		// the flush that is held at the gate is a time-triggered one and nothing is queued behind
+		// it when Flush arrives with empty buffers
+		clients = 1
+		scripts = [][]string{{"batch", "waitgate", "flush", "pause", "flush", core.Pick(r, []string{"batch", "empty", "flush"}), "waitgate", "flush"}}
+		gateKind, gateN = core.Pick(r, []string{"CreateFile", "Write", "Close", "Update"}), 0
+		rc.Res.Count("histories_time_triggered_flush_at_gate", 1)
+	}
 	desc["scripts"] = scripts
+	desc["gate"] = fmt.Sprintf("%s#%d", gateKind, gateN)
 	doFlush := func() {
 		fwg.Add(1)
 		gated := gateHit.Load() && !gate.IsOpen()
@@ -336,6 +345,10 @@ func runC07(rc *RunCtx, i int) {
 				switch op {
 				case "pause":
 					time.Sleep(time.Duration(200+c*100) * time.Microsecond)
+				case "waitgate":
+					for t := 0; t < 1000 && !gateHit.Load(); t++ {
+						time.Sleep(500 * time.Microsecond)
+					}
 				case "flush":
 					doFlush()
 				default:
